@@ -53,7 +53,14 @@ Want(e, idx, ct) ==
                               IN [c \in 1..N |-> (ms[c] % Pow2(K - sh)) * Pow2(sh)]
        [] OTHER -> LET rin == Len(aux.spts)  r == ((idx - 1) \div rin) + 1  i == ((idx - 1) % rin) + 1  sh == K - r * e.dsize * e.b    \* gglwe_c
                    IN [c \in 1..N |-> (aux.spts[i][c] % Pow2(K - sh)) * Pow2(sh)]
+\* public-key encryption: the logged object is the difference of two encryptions that share everything but the error
+\* stream, i.e. every coefficient of every column is a difference of two fresh errors
+DiffErrs(ct) ==
+  LET RECURSIVE Col(_)
+      Col(c) == IF c > ct.rank + 1 THEN <<>> ELSE [k \in 1..Len(ct.d[c][1]) |-> CMod(TorusInt(ct.d[c], ct.b, k), Pow2(ct.size * ct.b))] \o Col(c + 1)
+  IN Col(1)
 Errs(e, idx) ==
+  IF e.layout = "pk_diff" THEN DiffErrs(e.cells[idx]) ELSE
   LET ct == e.cells[idx]
       ph == Ph(ct, e.aux.sk)
       w == Want(e, idx, ct)
